@@ -50,7 +50,7 @@ class HarnessError(Exception):
 
 class Task:
     __slots__ = ('name', 'idx', 'baton', 'blocked_on', 'deadline', 'done', 'timed_out', 'prio', 'thread',
-                 'settling', 'ident', 'nopreempt', 'exc')
+                 'settling', 'ident', 'nopreempt', 'exc', 'node')
 
     def __init__(self, name, idx):
         self.name = name
@@ -67,6 +67,7 @@ class Task:
         self.ident = None
         self.nopreempt = 0
         self.exc = None
+        self.node = None  # simulated host (ip) this task belongs to; inherited by spawned threads
 
     def __repr__(self):
         return f'<Task {self.name} blocked_on={self.blocked_on!r} deadline={self.deadline} done={self.done}>'
@@ -487,6 +488,7 @@ class SimThread(_RealThread):
         t = Task(f'T{idx}:{self.name}', idx)
         t.prio = s.rng.random()
         t.thread = self
+        t.node = s.current.node
         self._task = t
         s.tasks.append(t)
         self._sim_started = True
